@@ -11,7 +11,7 @@ ASSUMPTIONS = ["storage re-binding (Glu statics, expander table) is exercised by
 
 
 def run(ctx):
-    st, viol = H.run_histories(ctx, 260 if ctx.quick() else 8000)
+    st, viol = H.run_histories(ctx, 260 if ctx.quick() else 3000)
     for key, what, blob in viol[:20]:
         ctx.violation(key, what, blob)
     ctx.coverage.update({"evaluations": st["calls"], "distinct_nontrivial": st["histories"],
